@@ -11,7 +11,7 @@ INDEX_KINDS = ("range", "offset", "step2", "datetime", "period")
 
 # further supported index kinds, used on reduced families (probed on the pinned tree: all accepted; a decreasing
 # RangeIndex is rejected by sktime's input check and therefore not "supported")
-INDEX_KINDS_EXTRA = ("tz", "irregular", "named", "int64", "periodQ")
+INDEX_KINDS_EXTRA = ("tz", "irregular", "named", "int64", "periodQ", "zstep3")
 
 
 def make_index(kind, n):
@@ -23,6 +23,8 @@ def make_index(kind, n):
         return pd.RangeIndex(n, name="t")
     if kind == "int64":
         return pd.Index(np.cumsum(1 + (np.arange(n) * 3) % 4) + 2)
+    if kind == "zstep3":  # starts at 0 like the default index, but its labels are NOT positions
+        return pd.RangeIndex(0, 3 * n, 3)
     if kind == "periodQ":
         return pd.period_range("2020Q1", periods=n, freq="Q")
     if kind == "range":
